@@ -36,6 +36,10 @@ pub enum Step {
     Next,
     /// deliver the `sel`-th parked event-sending task
     Deliver { sel: u32 },
+    /// the node layer stalls: events sent from now on stay in the (small) event channel, un-received
+    StallNode,
+    /// the node layer catches up: every event sent meanwhile must arrive
+    ResumeNode,
 }
 
 #[derive(Serialize, Deserialize, Clone, Debug)]
@@ -150,8 +154,9 @@ impl Sim for FetcherSim {
         let w_far = if fault && rng.chance(1, 2) { rng.range(1, 5) } else { 0 };
         let w_spurious = if fault && rng.chance(1, 2) { rng.range(1, 4) } else { 0 };
         let w_evict = if fault && rng.chance(1, 3) { rng.range(1, 3) } else { 0 };
+        let w_stall = if fault && rng.chance(1, 2) { rng.range(1, 4) } else { 0 };
         let weights = [
-            w_advert, w_arrive, w_early, w_put, w_next, w_advance, w_deliver, w_range, w_far, w_spurious, w_evict,
+            w_advert, w_arrive, w_early, w_put, w_next, w_advance, w_deliver, w_range, w_far, w_spurious, w_evict, w_stall,
         ];
         let arrival_order = rng.below(3); // 0 fifo, 1 lifo, 2 random
         let bad_store = if fault { *rng.pick(&[0u64, 1, 3]) } else { 0 }; // of 10 arrivals
@@ -232,7 +237,8 @@ impl Sim for FetcherSim {
                     rank: if rng.chance(1, 8) { None } else { Some(rng.usize_below(n_keys)) },
                 },
                 9 => Step::SpuriousEarly { key: rng.usize_below(n_keys), ver: draw_ver(rng, alt) },
-                _ => Step::Evict,
+                10 => Step::Evict,
+                _ => if rng.chance(2, 3) { Step::StallNode } else { Step::ResumeNode },
             };
             let created_inflight = matches!(s, Step::Advert { .. });
             steps.push(s);
